@@ -102,7 +102,7 @@ pub fn parse(text: &str) -> Vec<Action> {
         let w: Vec<&str> = l.split_whitespace().collect();
         let n = |i: usize| -> usize { w[i].parse().unwrap() };
         match w[0] {
-            "feat" => {}
+            "feat" | "mode" => {}
             "spawn" => v.push(Action::Spawn { cap: n(1), auto: w[2] == "1" }),
             "op" => v.push(Action::Op { o: n(1) as u64, k: kind(w[2]), slot: n(3), tmo: tmo(w[4]) }),
             "kill" => v.push(Action::Kill { slot: n(1) }),
